@@ -91,7 +91,11 @@ def make_loader(cfg, pool, init_epoch=0):
     if cfg["kind"] == "spect":
         p = D.SpectDataLoaderParams(batch_size=cfg["bsz"], drop_last=cfg["drop"],
                                     num_length_buckets=cfg["nbreq"], size_batch_by_length=cfg["dyn"])
-        return B.quiet(D.SpectDataLoader, d, p, shuffle=cfg["shuffle"], batch_first=cfg["bf"],
+        # the deprecated SpectTrainingDataLoader / SpectEvaluationDataLoader are SpectDataLoaders with other defaults;
+        # every argument is given by keyword, so they must behave exactly like the plain class
+        cls = {None: D.SpectDataLoader, "training": D.SpectTrainingDataLoader,
+               "evaluation": D.SpectEvaluationDataLoader}[cfg.get("wrapper")]
+        return B.quiet(cls, d, p, shuffle=cfg["shuffle"], batch_first=cfg["bf"],
                        sort_batch=cfg["sort"], init_epoch=init_epoch, seed=cfg["seed"],
                        suppress_alis=cfg["salis"], suppress_uttids=cfg["suttids"],
                        tokens_only=cfg["tokens_only"], num_workers=0), Rs
@@ -209,6 +213,8 @@ def run_loader(ctx, cfg, pool, spec, tid, out):
     spec: the exported record of the (lens, nbreq, bsz, dyn, drop) case or None.
     Appends to out['bucket'], out['collate'] (traces) and out['meta'][tid] = (cfg, site)."""
     site = {"spect": "SpectDataLoader", "lang": "LangDataLoader", "window": "ContextWindowDataLoader"}[cfg["kind"]]
+    if cfg.get("wrapper"):
+        site = {"training": "SpectTrainingDataLoader", "evaluation": "SpectEvaluationDataLoader"}[cfg["wrapper"]]
     n = len(cfg["lens"])
     names = _names(n)
     case = dict(type="loader", cfg=cfg)
@@ -226,6 +232,13 @@ def run_loader(ctx, cfg, pool, spec, tid, out):
         elif cfg["kind"] == "lang" and cfg["suttids"] and cfg["nbreq"] > 1 and isinstance(ex, IndexError):
             kind = "exception-length-buckets-suppressed-uttids"
         viol(kind, "constructing the loader raised %s: %r" % (type(ex).__name__, ex))
+        return
+    try:
+        found = len(loader.dataset)
+    except Exception:
+        found = n
+    if found != n:
+        viol("utterances-not-found", "the loader's data set holds %d utterances, the directory %d" % (found, n))
         return
     i2b, b2s, bucketed = bucket_maps(loader, n, cfg["bsz"])
     lens_by_idx = dict((i, (Rs[i] if cfg["kind"] == "lang" else cfg["lens"][i])) for i in range(n))
@@ -305,6 +318,7 @@ def random_flags(rng, kind):
     if kind == "spect":
         cfg["variant"] = rng.choice(["full", "full", "full", "noali", "noref", "ref2d"])
         cfg["tokens_only"] = cfg["variant"] != "ref2d"
+        cfg["wrapper"] = rng.choice([None, None, None, None, "training", "evaluation"])
     elif kind == "lang":
         cfg["variant"] = "lang"
         cfg["salis"] = True
